@@ -8,5 +8,5 @@ for id in "$@"; do
   /verif/check "$id" --tier quick 2>&1 | grep -E "VIOLATION|KNOWN-FINDING|HARNESS|^OK|^note|runs=|cases=" | cut -c1-400 | head -12
   echo "exit=${PIPESTATUS[0]}"
 done
-git -C /repo checkout -- .
+git -C /repo apply -R "$p" || git -C /repo checkout -- .
 find /verif/replays -type f -newer "$p" -name '*.json' | head -3
